@@ -169,7 +169,7 @@ package res
 //@
 //@ func (r *Request) reply(payload []byte)
 //@   requires reqOK(r)
-//@   modifies res.Request.replied, ghost.rcount, ghost.pubn, alloc
+//@   modifies res.Request.replied, ghost.rcount, ghost.pubn, alloc, ghost.errenc, ghost.errlast
 //@   ensures ok: !old(r.replied) && r.replied && rcount == store(old(rcount), ref(r), old(rcount[ref(r)]) + 1)
 //@   ensures_on_panic dup: old(r.replied) && r.replied && rcount == old(rcount) && pubn == old(pubn)
 //@   ghost call Conn.Publish#1 before :: assert arg_subject == r.msg.Reply
@@ -181,18 +181,25 @@ package res
 //@   ensures nilm: iff(m == nil, len(r.rheader) == 0 && r.status == 0)
 //@   ensures http: imp(m != nil && invR(r), r.isHTTP)
 //@
+//@ # errenc: error objects handed to the encoder by Request.error; errlast: the last one (C05/C18: an *Error is sent verbatim)
+//@ ghostvar errenc int
+//@ ghostvar errlast ref
 //@ func (r *Request) error(e *Error, m *metaObject)
 //@   requires reqOK(r)
 //@   requires metaOK: imp(m != nil, r.isHTTP)
 //@   ghost call Marshal#1 before :: assert nonnull: e != nil
-//@   modifies res.Request.replied, ghost.rcount, ghost.pubn, alloc
+//@   ghost call Marshal#1 before :: assert verbatim: typeIs(arg_v, "res.errorResponse") && unbox(arg_v, "res.errorResponse").Error == e && unbox(arg_v, "res.errorResponse").Meta == m
+//@   ghost call Marshal#1 after :: set errenc = errenc + 1
+//@   ghost call Marshal#1 after :: set errlast = ref(e)
+//@   modifies res.Request.replied, ghost.rcount, ghost.pubn, alloc, ghost.errenc, ghost.errlast
 //@   ensures ok: !old(r.replied) && r.replied && rcount == store(old(rcount), ref(r), old(rcount[ref(r)]) + 1)
+//@   ensures encoded: errenc == old(errenc) + 1 && imp(e != nil, errlast == ref(e))
 //@   ensures_on_panic dup: old(r.replied) && r.replied && rcount == old(rcount)
 //@
 //@ func (r *Request) success(result interface{}, m *metaObject)
 //@   requires reqOK(r)
 //@   requires metaOK: imp(m != nil, r.isHTTP)
-//@   modifies res.Request.replied, ghost.rcount, ghost.pubn, alloc
+//@   modifies res.Request.replied, ghost.rcount, ghost.pubn, alloc, ghost.errenc, ghost.errlast
 //@   ensures ok: !old(r.replied) && r.replied && rcount == store(old(rcount), ref(r), old(rcount[ref(r)]) + 1)
 //@   ensures_on_panic dup: old(r.replied) && r.replied && rcount == old(rcount)
 //@
@@ -214,87 +221,88 @@ package res
 //@
 //@ func (r *Request) OK(result interface{})
 //@   requires reqOK(r) && invR(r)
-//@   modifies res.Request.replied, ghost.rcount, ghost.pubn, alloc, res.metaObject.Header, res.metaObject.Status
+//@   modifies res.Request.replied, ghost.rcount, ghost.pubn, alloc, res.metaObject.Header, res.metaObject.Status, ghost.errenc, ghost.errlast
 //@   ensures respOK(r) && !old(r.replied)
 //@   ensures_on_panic respX(r)
 //@ func (r *Request) Error(err error)
 //@   requires reqOK(r) && invR(r)
-//@   modifies res.Request.replied, ghost.rcount, ghost.pubn, alloc, res.metaObject.Header, res.metaObject.Status
+//@   modifies res.Request.replied, ghost.rcount, ghost.pubn, alloc, res.metaObject.Header, res.metaObject.Status, ghost.errenc, ghost.errlast
 //@   ensures respOK(r) && !old(r.replied)
+//@   ensures verbatim: imp(typeIs(err, "*res.Error") && ptrOf(err, "*res.Error") != nil, errenc == old(errenc) + 1 && errlast == ref(ptrOf(err, "*res.Error")))
 //@   ensures_on_panic respX(r)
 //@ func (r *Request) NotFound()
 //@   requires reqOK(r) && invR(r)
-//@   modifies res.Request.replied, ghost.rcount, ghost.pubn, alloc, res.metaObject.Header, res.metaObject.Status
+//@   modifies res.Request.replied, ghost.rcount, ghost.pubn, alloc, res.metaObject.Header, res.metaObject.Status, ghost.errenc, ghost.errlast
 //@   ensures respOK(r) && !old(r.replied)
 //@   ensures_on_panic respX(r)
 //@ func (r *Request) MethodNotFound()
 //@   requires reqOK(r) && invR(r)
-//@   modifies res.Request.replied, ghost.rcount, ghost.pubn, alloc, res.metaObject.Header, res.metaObject.Status
+//@   modifies res.Request.replied, ghost.rcount, ghost.pubn, alloc, res.metaObject.Header, res.metaObject.Status, ghost.errenc, ghost.errlast
 //@   ensures respOK(r) && !old(r.replied)
 //@   ensures_on_panic respX(r)
 //@ func (r *Request) InvalidParams(message string)
 //@   requires reqOK(r) && invR(r)
-//@   modifies res.Request.replied, ghost.rcount, ghost.pubn, alloc, res.metaObject.Header, res.metaObject.Status
+//@   modifies res.Request.replied, ghost.rcount, ghost.pubn, alloc, res.metaObject.Header, res.metaObject.Status, ghost.errenc, ghost.errlast
 //@   ensures respOK(r) && !old(r.replied)
 //@   ensures_on_panic respX(r)
 //@ func (r *Request) InvalidQuery(message string)
 //@   requires reqOK(r) && invR(r)
-//@   modifies res.Request.replied, ghost.rcount, ghost.pubn, alloc, res.metaObject.Header, res.metaObject.Status
+//@   modifies res.Request.replied, ghost.rcount, ghost.pubn, alloc, res.metaObject.Header, res.metaObject.Status, ghost.errenc, ghost.errlast
 //@   ensures respOK(r) && !old(r.replied)
 //@   ensures_on_panic respX(r)
 //@ func (r *Request) AccessDenied()
 //@   requires reqOK(r) && invR(r)
-//@   modifies res.Request.replied, ghost.rcount, ghost.pubn, alloc, res.metaObject.Header, res.metaObject.Status
+//@   modifies res.Request.replied, ghost.rcount, ghost.pubn, alloc, res.metaObject.Header, res.metaObject.Status, ghost.errenc, ghost.errlast
 //@   ensures respOK(r) && !old(r.replied)
 //@   ensures_on_panic respX(r)
 //@ func (r *Request) AccessGranted()
 //@   requires reqOK(r) && invR(r)
-//@   modifies res.Request.replied, ghost.rcount, ghost.pubn, alloc, res.metaObject.Header, res.metaObject.Status
+//@   modifies res.Request.replied, ghost.rcount, ghost.pubn, alloc, res.metaObject.Header, res.metaObject.Status, ghost.errenc, ghost.errlast
 //@   ensures respOK(r) && !old(r.replied)
 //@   ensures_on_panic respX(r)
 //@ func (r *Request) Access(get bool, call string)
 //@   requires reqOK(r) && invR(r)
-//@   modifies res.Request.replied, ghost.rcount, ghost.pubn, alloc, res.metaObject.Header, res.metaObject.Status
+//@   modifies res.Request.replied, ghost.rcount, ghost.pubn, alloc, res.metaObject.Header, res.metaObject.Status, ghost.errenc, ghost.errlast
 //@   ensures respOK(r) && !old(r.replied)
 //@   ensures_on_panic respX(r)
 //@ func (r *Request) model(model interface{}, query string)
 //@   requires reqOK(r) && invR(r)
-//@   modifies res.Request.replied, ghost.rcount, ghost.pubn, alloc
+//@   modifies res.Request.replied, ghost.rcount, ghost.pubn, alloc, ghost.errenc, ghost.errlast
 //@   ensures respOK(r) && !old(r.replied)
 //@   ensures_on_panic respX(r)
 //@ func (r *Request) collection(collection interface{}, query string)
 //@   requires reqOK(r) && invR(r)
-//@   modifies res.Request.replied, ghost.rcount, ghost.pubn, alloc
+//@   modifies res.Request.replied, ghost.rcount, ghost.pubn, alloc, ghost.errenc, ghost.errlast
 //@   ensures respOK(r) && !old(r.replied)
 //@   ensures_on_panic respX(r)
 //@ func (r *Request) Model(model interface{})
 //@   requires reqOK(r) && invR(r)
-//@   modifies res.Request.replied, ghost.rcount, ghost.pubn, alloc
+//@   modifies res.Request.replied, ghost.rcount, ghost.pubn, alloc, ghost.errenc, ghost.errlast
 //@   ensures respOK(r) && !old(r.replied)
 //@   ensures_on_panic respX(r)
 //@ func (r *Request) QueryModel(model interface{}, query string)
 //@   requires reqOK(r) && invR(r)
-//@   modifies res.Request.replied, ghost.rcount, ghost.pubn, alloc
+//@   modifies res.Request.replied, ghost.rcount, ghost.pubn, alloc, ghost.errenc, ghost.errlast
 //@   ensures respOK(r) && !old(r.replied)
 //@   ensures_on_panic respX(r)
 //@ func (r *Request) Collection(collection interface{})
 //@   requires reqOK(r) && invR(r)
-//@   modifies res.Request.replied, ghost.rcount, ghost.pubn, alloc
+//@   modifies res.Request.replied, ghost.rcount, ghost.pubn, alloc, ghost.errenc, ghost.errlast
 //@   ensures respOK(r) && !old(r.replied)
 //@   ensures_on_panic respX(r)
 //@ func (r *Request) QueryCollection(collection interface{}, query string)
 //@   requires reqOK(r) && invR(r)
-//@   modifies res.Request.replied, ghost.rcount, ghost.pubn, alloc
+//@   modifies res.Request.replied, ghost.rcount, ghost.pubn, alloc, ghost.errenc, ghost.errlast
 //@   ensures respOK(r) && !old(r.replied)
 //@   ensures_on_panic respX(r)
 //@ func (r *Request) New(rid Ref)
 //@   requires reqOK(r) && invR(r)
-//@   modifies res.Request.replied, ghost.rcount, ghost.pubn, alloc
+//@   modifies res.Request.replied, ghost.rcount, ghost.pubn, alloc, ghost.errenc, ghost.errlast
 //@   ensures respOK(r) && !old(r.replied)
 //@   ensures_on_panic respX(r)
 //@ func (r *Request) Resource(rid string)
 //@   requires reqOK(r) && invR(r)
-//@   modifies res.Request.replied, ghost.rcount, ghost.pubn, alloc, res.metaObject.Header, res.metaObject.Status
+//@   modifies res.Request.replied, ghost.rcount, ghost.pubn, alloc, res.metaObject.Header, res.metaObject.Status, ghost.errenc, ghost.errlast
 //@   ensures respOK(r) && !old(r.replied)
 //@   ensures_on_panic respX(r)
 //@ func (r *Request) SetResponseStatus(code int)
@@ -326,7 +334,7 @@ package res
 //@
 //@ func Request.executeHandler$1()
 //@   requires reqOK(r) && invR(r)
-//@   modifies res.Request.replied, ghost.rcount, ghost.pubn, alloc, res.metaObject.Header, res.metaObject.Status
+//@   modifies res.Request.replied, ghost.rcount, ghost.pubn, alloc, res.metaObject.Header, res.metaObject.Status, ghost.errenc, ghost.errlast
 //@   ensures quiet: imp(isNil(recovered), r.replied == old(r.replied) && rcount == old(rcount))
 //@   ensures answered: imp(!isNil(recovered), r.replied && invR(r))
 //@
@@ -454,9 +462,14 @@ package res
 //@
 //@ spec func dotFree(s string) bool
 //@   = forall(k, 0, len(s), s[k] != '.')
+//@ # hrq: requests handed to the worker queue by handleRequest
+//@ ghostvar hrq int
 //@ func (s *Service) handleRequest(m *nats.Msg)
 //@   requires s != nil && m != nil && muxOK(s.Mux)
-//@   modifies res.Service.rwork, res.Service.workqueue, alloc, res.Match.Handler, res.Match.Listeners, res.Match.Params, res.Match.Group, res.work.s, res.work.wid, res.work.queue, res.work.single, map:res.Service.rwork, elems:res.Service.workqueue, elems:res.work.queue, ghost.wst, ghost.qpos
+//@   ghost call Service.runWith#1 after :: set hrq = hrq + 1
+//@   # every request with a reply subject and a well-formed subject is handed to the worker queue exactly once (whether or not a handler matches)
+//@   ghost exit :: assert handed: hrq == old(hrq) + 1 || (hrq == old(hrq) && (len(m.Reply) == 0 || idx < 0))
+//@   modifies res.Service.rwork, res.Service.workqueue, alloc, res.Match.Handler, res.Match.Listeners, res.Match.Params, res.Match.Group, res.work.s, res.work.wid, res.work.queue, res.work.single, map:res.Service.rwork, elems:res.Service.workqueue, elems:res.work.queue, ghost.wst, ghost.qpos, ghost.hrq
 //@   callback onError benign
 //@   ghost call Service.runWith#1 before :: assert split.type: dotFree(rtype) && len(rtype) < len(m.Subject) && m.Subject[0:len(rtype)] == rtype && m.Subject[len(rtype)] == '.'
 //@   ghost call Service.runWith#1 before :: assert split.plain: imp(!(rtype == "call" || rtype == "auth"), len(method) == 0 && m.Subject[len(rtype)+1:] == rname)
@@ -982,7 +995,7 @@ package res
 //@ ghostvar nlit arrb
 //@ pred nodeOK(c *node) = nr[ref(c)] >= 0 && imp(c.mounted, nr[ref(c)] == 0 && nlit[ref(c)] && len(c.params) == 0) && ref(c.params) < nextRef()
 //@     && forall(k, 0, len(c.params), 0 <= c.params[k].idx && c.params[k].idx < nr[ref(c)])
-//@     && imp(c.hs != nil, forall(k, 0, len(c.hs.group), imp(len(c.hs.group[k].str) == 0, 0 <= c.hs.group[k].idx && c.hs.group[k].idx < nr[ref(c)])))
+//@     && imp(c.hs != nil, 0 < ref(c.hs) && ref(c.hs) < nextRef() && ref(c.hs.group) < nextRef() && forall(k, 0, len(c.hs.group), imp(len(c.hs.group[k].str) == 0, 0 <= c.hs.group[k].idx && c.hs.group[k].idx < nr[ref(c)])))
 //@ #   mown[mp]   the node that owns the children map mp (children maps are not shared)
 //@ ghostvar mown arr
 //@ pred childOK(l *node, c *node, literal bool) = c != nil && 0 < ref(c) && ref(c) < nextRef() && isnode[ref(c)] && nr[ref(c)] == ite(c.mounted, 0, nr[ref(l)] + 1) && imp(nlit[ref(c)], nlit[ref(l)] && literal)
@@ -1017,11 +1030,58 @@ package res
 //@   ghost call matchNode#1 after :: use open(nm.n)
 //@   loop 1 invariant 0 <= start && start <= i && i <= len(subrname) && len(tokens) >= 0 && muxOK(m) && len(subrname) > 0 && ref(tokens) >= old(nextRef())
 //@
+//@ # tokens of a pattern: startOf(p, j) is the position where token j starts, ndots counts the separators
+//@ spec func startOf(p string, j int) int
+//@   decreases j
+//@   = ite(j <= 0, 0, tokEnd(p, startOf(p, j-1)) + 1)
+//@ spec func ndots(p string, i int) int
+//@   decreases i
+//@   = ite(i <= 0, 0, ndots(p, i-1) + ite(p[i-1] == '.', 1, 0))
+//@ lemma tokEndIs(p string, s int, i int)
+//@   requires 0 <= s && s <= i && i <= len(p) && forall(k, s, i, p[k] != '.') && (i == len(p) || p[i] == '.')
+//@   ensures tokEnd(p, s) == i
+//@   decreases i - s
+//@   use imp(s < i, tokEndIs(p, s+1, i))
+//@ lemma tokEndBounds(p string, s int)
+//@   requires 0 <= s && s <= len(p)
+//@   ensures s <= tokEnd(p, s) && tokEnd(p, s) <= len(p)
+//@   decreases len(p) - s
+//@   use imp(s < len(p) && p[s] != '.', tokEndBounds(p, s+1))
+//@ lemma startOfStep(p string, j int)
+//@   requires j >= 0
+//@   ensures startOf(p, j+1) == tokEnd(p, startOf(p, j)) + 1 && startOf(p, 0) == 0
+//@ lemma ndotsStep(p string, i int)
+//@   requires i >= 0
+//@   ensures ndots(p, i+1) == ndots(p, i) + ite(p[i] == '.', 1, 0) && ndots(p, 0) == 0
 //@ func splitPattern(p string) (tokens []string)
 //@   modifies alloc
+//@   opaque startOf tokEnd ndots
 //@   ensures empty: imp(len(p) == 0, ref(tokens) == 0 && len(tokens) == 0)
-//@   ensures some: imp(len(p) > 0, len(tokens) >= 1)
-//@   loop 1 invariant 0 <= start && start <= i && i <= len(p) && ref(tokens) >= old(nextRef())
+//@   ensures count: imp(len(p) > 0, len(tokens) == ndots(p, len(p)) + 1)
+//@   ensures toks: forall(j, 0, len(tokens), 0 <= startOf(p, j) && startOf(p, j) <= len(p) && len(tokens[j]) == tokEnd(p, startOf(p, j)) - startOf(p, j) && imp(len(tokens[j]) > 0, tokens[j][0] == p[startOf(p, j)]))
+//@   ghost loop 1 entry :: use ndotsStep(p, 0)
+//@   ghost loop 1 entry :: use startOfStep(p, 0)
+//@   ghost store i#2 before :: use ndotsStep(p, i)
+//@   ghost store start#2 before :: use tokEndIs(p, start, i)
+//@   ghost store start#2 before :: use startOfStep(p, len(tokens) - 1)
+//@   ghost exit :: use tokEndIs(p, start, len(p))
+//@   ghost exit :: use startOfStep(p, 0)
+//@   loop 1 invariant 0 <= start && start <= i && i <= len(p) && ref(tokens) >= old(nextRef()) && len(p) > 0
+//@   loop 1 invariant len(tokens) == ndots(p, i) && start == startOf(p, len(tokens)) && forall(k, start, i, p[k] != '.')
+//@   loop 1 invariant forall(j, 0, len(tokens), 0 <= startOf(p, j) && startOf(p, j) <= len(p) && len(tokens[j]) == tokEnd(p, startOf(p, j)) - startOf(p, j) && imp(len(tokens[j]) > 0, tokens[j][0] == p[startOf(p, j)]))
+//@
+//@ # a parsed group: tag parts (empty str) name a token of the pattern that starts with '$'; text parts are not empty
+//@ pred groupOK(g group, pattern string) = forall(k, 0, len(g), imp(len(g[k].str) == 0, 0 <= g[k].idx && g[k].idx < ndots(pattern, len(pattern)) + 1 && 0 <= startOf(pattern, g[k].idx) && startOf(pattern, g[k].idx) < len(pattern) && pattern[startOf(pattern, g[k].idx)] == '$'))
+//@ func parseGroup(g string, pattern string) (rg group)
+//@   modifies alloc
+//@   may_panic
+//@   opaque startOf tokEnd ndots
+//@   ensures nilg: imp(len(g) == 0, ref(rg) == 0)
+//@   ghost store gr#3 before :: use tokEndBounds(pattern, startOf(pattern, j))
+//@   ensures ok: groupOK(rg, pattern) && (ref(rg) == 0 || ref(rg) >= old(nextRef()))
+//@   loop 1 invariant 0 <= start && start <= i && i <= l && l == len(g) && groupOK(gr, pattern) && (ref(gr) == 0 || ref(gr) >= old(nextRef()))
+//@   loop 2 invariant 0 <= start && start <= i && i <= l && l == len(g) && groupOK(gr, pattern) && (ref(gr) == 0 || ref(gr) >= old(nextRef()))
+//@   loop 3 invariant -1 <= rangeindex && rangeindex < len(tokens) + 0 && 0 <= start && start < i && i < l && l == len(g) && groupOK(gr, pattern) && (ref(gr) == 0 || ref(gr) >= old(nextRef())) && len(tag) == i - start + 1 && tag[0] == '$'
 //@
 //@ # ---- registration: fetch creates the nodes of a pattern and keeps the invariant (mounting is not under contract).
 //@ # NOT DISCHARGED YET: loop1.preserve (WF after linking the new node) times out; fetch is therefore not in the
@@ -1046,12 +1106,80 @@ package res
 //@   ghost store l#2 before :: assert p7: imp(n.nodes != nil, mown[ref(n.nodes)] == ref(n) && ref(n.nodes) < nextRef())
 //@   ghost exit :: use open(l)
 //@   ensures ok: rn != nil && isnode[ref(rn)] && muxOK(m) && nlit[ref(m.root)]
-//@   ensures params: forall(k, 0, len(rparams), 0 <= rparams[k].idx && rparams[k].idx < nr[ref(rn)])
+//@   ensures params: forall(k, 0, len(rparams), 0 <= rparams[k].idx && rparams[k].idx < nr[ref(rn)]) && imp(rn.mounted, len(rparams) == 0) && (ref(rparams) == 0 || ref(rparams) >= old(nextRef()))
+//@   ensures depth: imp(len(pattern) > 0 && !rn.mounted, nr[ref(rn)] + rmi == ndots(pattern, len(pattern)) + 1) && 0 <= rmi
+//@   ensures lits: forall(j, 0, rmi, imp(j < ndots(pattern, len(pattern)) + 1, pattern[startOf(pattern, j)] != '$'))
+//@   ensures lits.mounted: imp(rn.mounted && len(pattern) > 0, forall(j, 0, ndots(pattern, len(pattern)) + 1, pattern[startOf(pattern, j)] != '$'))
+//@   opaque startOf tokEnd ndots
 //@   ensures fresh: forallge(q, nextRef(), !isnode[q])
 //@   loop 1 invariant -1 <= rangeindex__1 && rangeindex__1 < len(tokens) + 0 && WF() && m.root != nil && isnode[ref(m.root)] && nr[ref(m.root)] == 0 && nlit[ref(m.root)]
 //@   loop 1 invariant l != nil && isnode[ref(l)] && 0 < ref(l) && ref(l) < nextRef() && mount == nil && !doMount
 //@   loop 1 invariant 0 <= mountIdx && mountIdx <= rangeindex__1 + 1 && imp(!l.mounted, nr[ref(l)] + mountIdx == rangeindex__1 + 1)
 //@   loop 1 invariant forall(k, 0, len(params), 0 <= params[k].idx && params[k].idx + mountIdx < rangeindex__1 + 1) && imp(len(params) > 0, !nlit[ref(l)])
 //@   loop 1 invariant forallge(q, nextRef(), !isnode[q]) && (ref(params) == 0 || ref(params) >= old(nextRef()))
+//@   loop 1 invariant forall(j, 0, rangeindex__1 + 1, len(tokens[j]) > 0 && imp(tokens[j][0] == '$', j >= mountIdx)) && imp(nlit[ref(l)], forall(j, 0, rangeindex__1 + 1, tokens[j][0] != '$'))
 //@   loop 1 invariant forallobj(x, isnode[x], ref(asptr(x, "*res.node").params) < old(nextRef()))
 //@   loop 2 invariant -1 <= rangeindex__2 && rangeindex__2 < len(params) + 0
+//@
+//@ func setAndValidateParams(n *node, params []pathParam)
+//@   requires n != nil
+//@   modifies res.node.params
+//@   may_panic
+//@   ensures set: imp(old(ref(n.params)) == 0, same(n.params, params))
+//@   ensures kept: imp(old(ref(n.params)) != 0, same(n.params, old(n.params)))
+//@   ensures others: forallint(x, imp(x != ref(n), same(asptr(x, "*res.node").params, old(asptr(x, "*res.node").params))))
+//@   loop 1 invariant -1 <= rangeindex && rangeindex < len(params) + 0 && len(n.params) == len(params) && same(n.params, old(n.params)) && ref(n.params) != 0
+//@ func (m *Mux) AddListener(pattern string, handler func(*Event))
+//@   requires muxOK(m) && nlit[ref(m.root)] && 0 < ref(m.root) && ref(m.root) < nextRef()
+//@   requires fresh: forallge(q, nextRef(), !isnode[q])
+//@   modifies alloc, ghost.isnode, ghost.nr, ghost.nlit, ghost.mown, res.node.param, res.node.wild, res.node.nodes, map:res.node.nodes, res.node.params, res.node.listeners, elems:res.node.listeners
+//@   may_panic
+//@   ghost call setAndValidateParams#1 before :: use open(n)
+//@   ensures ok: muxOK(m) && nlit[ref(m.root)] && forallge(q, nextRef(), !isnode[q])
+//@
+//@ # OnRegister callbacks are client code: assumed not to touch the Mux (they are handed the service, the pattern and the handler)
+//@ func callback.onRegisterCB(self ref, s *Service, p Pattern, h Handler)
+//@   modifies all
+//@   ensures WF() && isnode == old(isnode) && nr == old(nr) && nlit == old(nlit) && unchanged("res.Mux.root", "res.Mux.path", "res.Mux.parent", "res.Mux.s", "res.Mux.mountp") && nextRef() >= old(nextRef())
+//@ func (m *Mux) registeredService() (s *Service)
+//@   requires m != nil
+//@ func (m *Mux) FullPath() (p string)
+//@   requires m != nil
+//@   modifies alloc
+//@ func (m *Mux) add(pattern string, hs *regHandler)
+//@   requires muxOK(m) && nlit[ref(m.root)] && 0 < ref(m.root) && ref(m.root) < nextRef() && hs != nil && 0 < ref(hs) && ref(hs) < nextRef() && ref(hs.group) < nextRef() && groupOK(hs.group, pattern)
+//@   requires unshared: forallobj(x, isnode[x], asptr(x, "*res.node").hs != hs && (asptr(x, "*res.node").hs == nil || ref(asptr(x, "*res.node").hs.group) != ref(hs.group) || ref(hs.group) == 0))
+//@   requires fresh: forallge(q, nextRef(), !isnode[q])
+//@   modifies all
+//@   may_panic
+//@   opaque startOf tokEnd ndots
+//@   callback OnRegister onRegisterCB
+//@   ghost call setAndValidateParams#1 before :: use open(n)
+//@   ensures ok: muxOK(m)
+//@   loop 1 invariant -1 <= rangeindex && rangeindex < len(hs.group) + 0 && mountIdx > 0 && WF() && n != nil && isnode[ref(n)] && n.hs == nil
+//@   loop 1 invariant forall(k, 0, len(hs.group), imp(len(hs.group[k].str) == 0, ite(k <= rangeindex, 0 <= hs.group[k].idx && hs.group[k].idx < nr[ref(n)], mountIdx <= hs.group[k].idx && hs.group[k].idx - mountIdx < nr[ref(n)])))
+//@   loop 2 invariant muxOK(m) && nlit[ref(m.root)] && 0 < ref(m.root) && ref(m.root) < nextRef() && forallge(q, nextRef(), !isnode[q]) && hs != nil
+//@ func (m *Mux) AddHandler(pattern string, hs Handler)
+//@   requires muxOK(m) && nlit[ref(m.root)] && 0 < ref(m.root) && ref(m.root) < nextRef()
+//@   requires fresh: forallge(q, nextRef(), !isnode[q])
+//@   modifies all
+//@   may_panic
+//@   ensures ok: muxOK(m)
+//@ func NewMux(path string) (m *Mux)
+//@   requires WF() && forallge(q, nextRef(), !isnode[q])
+//@   modifies alloc, ghost.isnode, ghost.nr, ghost.nlit
+//@   may_panic
+//@   ghost exit :: set isnode = store(isnode, ref(m.root), true)
+//@   ghost exit :: set nr = store(nr, ref(m.root), 0)
+//@   ghost exit :: set nlit = store(nlit, ref(m.root), true)
+//@   ensures ok: muxOK(m) && nlit[ref(m.root)] && 0 < ref(m.root) && ref(m.root) < nextRef() && same(m.path, path) && forallge(q, nextRef(), !isnode[q])
+//@ # options only fill in the Handler they are given (Access, GetModel, Call, ... in option.go)
+//@ trusted func (o Option) SetOption(h *Handler)
+//@   modifies *h
+//@ func (m *Mux) Handle(pattern string, hf []Option)
+//@   requires muxOK(m) && nlit[ref(m.root)] && 0 < ref(m.root) && ref(m.root) < nextRef() && forall(k, 0, len(hf), !isNil(hf[k]))
+//@   requires fresh: forallge(q, nextRef(), !isnode[q])
+//@   modifies all
+//@   may_panic
+//@   ensures ok: muxOK(m)
+//@   loop 1 invariant -1 <= rangeindex && rangeindex < len(hf) + 0 && muxOK(m) && nlit[ref(m.root)] && 0 < ref(m.root) && ref(m.root) < nextRef() && forallge(q, nextRef(), !isnode[q]) && forall(k, 0, len(hf), !isNil(hf[k]))
